@@ -395,7 +395,62 @@ class _MirrorSomeComparisons(ast.NodeTransformer):
         return node
 
 
+class _KeywordSomeArguments(ast.NodeTransformer):
+    """`f(a, b, k=c)` -> `f(p1=a, p2=b, k=c)` on a random 30 % of the calls to functions / methods / constructors of the package whose
+    name has one parameter list in the whole package (so that the callee is known without types)."""
+    SHARE = 0.3
+    SIGS = None
+
+    def __init__(self, seed=9):
+        import random
+        self.rnd = random.Random(seed)
+
+    @classmethod
+    def collect(cls, trees):
+        sigs, clash = {}, set()
+        for tree in trees:
+            for n in ast.walk(tree):
+                if isinstance(n, ast.ClassDef):
+                    for m in n.body:
+                        if isinstance(m, ast.FunctionDef) and m.name == "__init__":
+                            cls._add(sigs, clash, n.name, m, True)
+                if isinstance(n, ast.FunctionDef) and not n.name.startswith("__"):
+                    cls._add(sigs, clash, n.name, n, None)
+        for k in clash | {"get", "to_json", "node_names"}:      # also methods of dict / pandas objects: the callee is not known by name
+            sigs.pop(k, None)
+        cls.SIGS = sigs
+
+    @staticmethod
+    def _add(sigs, clash, name, fn, is_method):
+        a = fn.args
+        if a.vararg or a.posonlyargs:
+            clash.add(name)
+            return
+        params = [x.arg for x in a.args]
+        if params and params[0] in ("self", "cls"):
+            params = params[1:]
+        if name in sigs and sigs[name] != params:
+            clash.add(name)
+        sigs[name] = params
+
+    def visit_Call(self, node):
+        self.generic_visit(node)
+        f = node.func
+        name = f.attr if isinstance(f, ast.Attribute) else (f.id if isinstance(f, ast.Name) else None)
+        if isinstance(f, ast.Attribute) and isinstance(f.value, ast.Name) and f.value.id in ("np", "pd", "sp", "CVX", "dt", "math", "json", "os"):
+            return node
+        params = (self.SIGS or {}).get(name)
+        if params is None or not node.args or any(isinstance(a, ast.Starred) for a in node.args) or len(node.args) > len(params):
+            return node
+        if any(k.arg is None for k in node.keywords) or self.rnd.random() >= self.SHARE:
+            return node
+        node.keywords = [ast.keyword(arg=params[i], value=a) for i, a in enumerate(node.args)] + node.keywords
+        node.args = []
+        return node
+
+
 TWINS = {
+    "keyword-arguments-30pct": _KeywordSomeArguments,
     "mirror-comparisons-30pct": _MirrorSomeComparisons,
     "swap-independent-neighbours-30pct": _SwapIndependentNeighbours,
     "unparse-roundtrip": None,
@@ -416,6 +471,8 @@ def neutral(prop, repo):
         tmp = tempfile.mkdtemp(prefix="eaocheck_twin_")
         try:
             _copy_pkg(repo, tmp)
+            if tr is not None and hasattr(tr, "collect"):
+                tr.collect([ast.parse(open(os.path.join(tmp, "eaopack", f)).read()) for f in sorted(os.listdir(os.path.join(tmp, "eaopack"))) if f.endswith(".py")])
             for f in sorted(os.listdir(os.path.join(tmp, "eaopack"))):
                 if not f.endswith(".py"):
                     continue
